@@ -244,8 +244,8 @@ class Km(Channel):
     def init_state(self, states, v, params, delta_t):
         """Initialize the state such at fixed point of gate dynamics."""
         prefix = self._name
-        alpha_p, beta_p = self.p_gate(v, params[f"{prefix}_taumax"])
-        return {f"{prefix}_p": alpha_p / (alpha_p + beta_p)}
+        p_inf, _ = self.p_gate(v, params[f"{prefix}_taumax"])
+        return {f"{prefix}_p": p_inf}
 
     @staticmethod
     def p_gate(v, taumax):
@@ -371,8 +371,8 @@ class CaT(Channel):
     def init_state(self, states, v, params, delta_t):
         """Initialize the state such at fixed point of gate dynamics."""
         prefix = self._name
-        alpha_u, beta_u = self.u_gate(v, params[f"{prefix}_vx"])
-        return {f"{prefix}_u": alpha_u / (alpha_u + beta_u)}
+        u_inf, _ = self.u_gate(v, params[f"{prefix}_vx"])
+        return {f"{prefix}_u": u_inf}
 
     @staticmethod
     def u_gate(v, vx):
